@@ -26,6 +26,27 @@ for v := range OVER<<§src(3, 10)>>OVER {
 	v := v + 100
 	tr.V(1, v)
 }`, "consumer-redeclares-loop-var"),
+		mk("cons-loop-redeclares-variable-with-var", `
+for v := range OVER<<§src(3, 10)>>OVER {
+	var v = float64(v) / 2
+	tr.V(1, int(v*10))
+}`, "consumer-redeclares-loop-var"),
+		mk("cons-assign-form-with-declaration-in-body", `
+last := -1
+for last = range OVER<<§src(4, 10)>>OVER {
+	d := last * 2
+	tr.V(1, d)
+	if last == 12 {
+		break
+	}
+}
+tr.V(2, last)
+found := 0
+for found = range OVER<<§src(3, 30)>>OVER {
+	var seen = found
+	tr.V(3, seen)
+}
+tr.V(4, found)`, "range-assign", "body-declares"),
 		mk("cons-break-does-not-overpull", `
 it := §src(4, 10)
 for v := range OVER<<it>>OVER {
